@@ -25,6 +25,22 @@ class GaussTarget:
         return -(self.P @ (np.asarray(t, float) - self.mu))
 
 
+class OffsetTarget:
+    """The same density with a constant added to its logarithm (log-densities are defined up to a constant; a log-likelihood of
+    thousands of data sits at -1e3 .. -1e7).  Every other attribute is the inner target's."""
+
+    def __init__(self, inner, c):
+        self.inner, self.c = inner, float(c)
+
+    def __call__(self, t):
+        return self.inner(t) + self.c
+
+    def __getattr__(self, name):   # grad (when the inner target has one) and everything else
+        if name in ("inner", "c"):
+            raise AttributeError(name)
+        return getattr(self.inner, name)
+
+
 class BananaTarget:
     def __init__(self, b=0.5, s=1.0):
         self.b, self.s = b, s
